@@ -47,7 +47,7 @@ ASSUMPTIONS = [
 LEVEL_TEXT = ("The selection function is evaluated on its complete finite domain (protocol classes, lists up to length 4); "
               "the wiring into real handshakes is sampled.")
 LEVEL_NOTE = "exhaustive for alpn_select_callback over protocol classes; handshake part is sampled"
-QUICK_N, THOROUGH_N = 1_600, 60_000  # handshakes (part 2); part 1 is always complete
+QUICK_N, THOROUGH_N = 3_200, 100_000  # handshakes (part 2); part 1 is always complete
 
 PROTOS = [b"h2", b"h3", b"http/1.1", b"http/1.0", b"http/0.9", b"acme-tls/1", b"qux"]
 UPSTREAM = [None, b""] + PROTOS
@@ -216,6 +216,74 @@ def run_handshake(tc, pipe):
     raise HarnessError("handshake did not finish")
 
 
+_peer_ctx = {}
+
+
+def upstream_ssl_context(prefer):
+    """server-side CPython ssl context of the upstream peer; `prefer` = b"" (no ALPN support: selects nothing) or the one
+    protocol the server supports (selected iff mitmproxy offers it).  Self-signed EC certificate, created once per
+    process; the PEM file only exists while it is loaded."""
+    if "pem" not in _peer_ctx:
+        import datetime
+        from cryptography import x509
+        from cryptography.hazmat.primitives import hashes, serialization
+        from cryptography.hazmat.primitives.asymmetric import ec
+        from cryptography.x509.oid import NameOID
+        key = ec.generate_private_key(ec.SECP256R1())
+        name = x509.Name([x509.NameAttribute(NameOID.COMMON_NAME, "example.test")])
+        now = datetime.datetime(2020, 1, 1)
+        cert = (x509.CertificateBuilder().subject_name(name).issuer_name(name).public_key(key.public_key())
+                .serial_number(1).not_valid_before(now).not_valid_after(now + datetime.timedelta(days=36500))
+                .add_extension(x509.SubjectAlternativeName([x509.DNSName("example.test")]), critical=False)
+                .sign(key, hashes.SHA256()))
+        _peer_ctx["pem"] = (key.private_bytes(serialization.Encoding.PEM, serialization.PrivateFormat.PKCS8,
+                                              serialization.NoEncryption())
+                            + cert.public_bytes(serialization.Encoding.PEM))
+    if prefer not in _peer_ctx:
+        d = tempfile.mkdtemp(prefix="verif-c18-", dir="/dev/shm" if os.path.isdir("/dev/shm") else "/var/tmp")
+        try:
+            path = os.path.join(d, "upstream.pem")
+            with open(path, "wb") as f:
+                f.write(_peer_ctx["pem"])
+            sctx = ssl.SSLContext(ssl.PROTOCOL_TLS_SERVER)
+            sctx.load_cert_chain(path)
+            if prefer:
+                sctx.set_alpn_protocols([prefer.decode("ascii")])
+            _peer_ctx[prefer] = sctx
+        finally:
+            shutil.rmtree(d, ignore_errors=True)
+    return _peer_ctx[prefer]
+
+
+class UpstreamPeer:
+    """a real TLS server (CPython ssl over memory BIOs) attached to the server connection the proxy opens"""
+
+    def __init__(self, drv, srv, prefer):
+        self.drv, self.srv = drv, srv
+        self.inb, self.outb = ssl.MemoryBIO(), ssl.MemoryBIO()
+        self.obj = upstream_ssl_context(prefer).wrap_bio(self.inb, self.outb, server_side=True)
+        self.done = False
+        self.error = None
+
+    def feed(self, data):
+        self.inb.write(data)
+        if not self.done and self.error is None:
+            try:
+                self.obj.do_handshake()
+                self.done = True
+            except ssl.SSLWantReadError:
+                pass
+            except ssl.SSLError as e:
+                self.error = e
+        out = self.outb.read()
+        if out:
+            self.drv.recv(self.srv, out)
+
+    def alpn(self):
+        a = self.obj.selected_alpn_protocol()
+        return a.encode() if a is not None else b""
+
+
 _env = None
 
 
@@ -243,14 +311,17 @@ SHAPES = ["swp", "swp", "regular", "reverse", "transparent"]
 
 
 def strategy(ctx):
+    # "peer": upstream is a real TLS server and mitmproxy's own ServerTLSLayer completes the upstream handshake first
+    # (eager strategy), so Server.alpn is whatever the layer stored; "assigned": the harness opens the server connection
+    # and assigns the negotiated protocol (also reaches protocols the client did not offer = addon-chosen upstream offers)
     return st.tuples(st.lists(st.sampled_from(PROTOS), max_size=4, unique=True),
-                     st.sampled_from(UPSTREAM), st.booleans(), st.sampled_from(SHAPES),
-                     st.sampled_from([0, 0, 0, 1, 2, 3, 4, 5, 6]))
+                     st.sampled_from(UPSTREAM + [b"", b"", b"h2", b"http/1.1"]), st.booleans(), st.sampled_from(SHAPES),
+                     st.sampled_from([0, 0, 0, 1, 2, 3, 4, 5, 6]), st.sampled_from(["peer", "peer", "assigned"]))
 
 
 def check_case(case, ctx):
     """[offers, upstream, override, http2]  -> callback row
-       [offers, upstream, http2, shape, outer_offers_index] -> real layer stack + real handshake(s)"""
+       [offers, upstream, http2, shape, outer_offers_index(, "peer"|"assigned")] -> real layer stack + real handshake(s)"""
     if len(case) == 4:
         return check_callback(case, ctx)
     import driver
@@ -260,11 +331,12 @@ def check_case(case, ctx):
     from mitmproxy.proxy.layers import modes
     from mitmproxy.proxy.mode_specs import ProxyMode
 
-    offers, upstream, http2, shape, outer_i = case
+    offers, upstream, http2, shape, outer_i = case[:5]
+    how = case[5] if len(case) > 5 else "assigned"
     tctx, ta, nl = stack_env()
     # the upstream protocol is "known" when the server connection exists and has finished its TLS handshake before the
     # client handshake starts (eager strategy); "unknown" = no server connection yet (lazy strategy)
-    tctx.options.update(http2=http2, connection_strategy="lazy" if upstream is None else "eager")
+    tctx.options.update(http2=http2, connection_strategy="lazy" if upstream is None else "eager", ssl_insecure=True)
     client = connection.Client(peername=("192.0.2.7", 51000), sockname=("192.0.2.1", 8080), timestamp_start=1.0,
                                state=ConnectionState.OPEN, proxy_mode=ProxyMode.parse(MODE_OF[shape]))
     c = context.Context(client, tctx.options)
@@ -282,11 +354,26 @@ def check_case(case, ctx):
         elif h.name == "tls_clienthello":
             ta.tls_clienthello(h.data)
         elif h.name == "tls_start_client":
+            # what is known about upstream at the moment the client-side selection is set up
+            for p in peers:
+                if p.done:
+                    known.append(p.alpn())
             ta.tls_start_client(h.data)
-        # tls_start_server is left unanswered: no upstream handshake is ever needed (see on_open)
+        elif h.name == "tls_start_server" and how == "peer":
+            ta.tls_start_server(h.data)
+        # "assigned": tls_start_server stays unanswered, no upstream handshake is ever needed (see on_open)
+
+    peers = []
+    known = []
 
     def on_open(srv):
-        if upstream is not None:
+        if upstream is None:
+            return
+        if how == "peer":
+            peer = UpstreamPeer(drv, srv, upstream)
+            peers.append(peer)
+            drv.on_send[srv] = peer.feed
+        else:
             srv.tls = True
             srv.alpn = upstream
             srv.timestamp_tls_setup = 2.0
@@ -326,13 +413,22 @@ def check_case(case, ctx):
         # property's business, the negotiated protocol is still judged
         ctx.cls("ignored: crash above TLS after the handshake")
     sel = inner.alpn()
-    if upstream is not None and not any(s.alpn == upstream for s in drv.servers):
+    if how == "peer" and upstream is not None:
+        for p in peers:
+            if p.error is not None:
+                raise HarnessError("upstream peer handshake failed: %r" % (p.error,))
+        if not known:
+            raise HarnessError("upstream TLS was not established before the client handshake (eager strategy)")
+        # the truth about upstream comes from the peer, not from what the layer stored in Server.alpn
+        upstream = known[-1]
+        ctx.cls("peer upstream: %s" % ("negotiated none" if upstream == b"" else "negotiated " + upstream.decode()))
+    elif upstream is not None and not any(s.alpn == upstream for s in drv.servers):
         raise HarnessError("upstream protocol was not installed on the server connection")
     if (client.alpn or None) != sel:
         ctx.fail("e2e:client-alpn-attribute", "client negotiated %r but Client.alpn=%r" % (sel, client.alpn))
     judge(ctx, offers, upstream, False, http2, sel, "")
     if offers:
-        ctx.nt(("e2e", tuple(offers), upstream, http2, shape, outer_i if shape == "swp" else 0))
+        ctx.nt(("e2e", tuple(offers), upstream, http2, shape, outer_i if shape == "swp" else 0, how))
     ctx.cls("stack %s: %s" % (shape, "none" if sel is None else "upstream" if sel == upstream else sel.decode()))
 
 
